@@ -300,6 +300,18 @@ class Pool:
                 guards = [par[:g], par[g + n:]]
         else:
             r, c = v.shape
+            if layout in ("contig_exact", "fortran_exact"):
+                # truly contiguous 2-D block (guards before and after it in a
+                # flat parent): code that skips a copy "because the array is
+                # already contiguous" only shows on such arrays
+                par = np.full(r * c + 2 * g, sent, dtype=v.dtype)
+                mid = par[g:g + r * c]
+                view = mid.reshape(r, c) if layout == "contig_exact" \
+                    else mid.reshape(c, r).T
+                view[...] = v
+                guards = [par[:g], par[g + r * c:]]
+                self.parents.append(par)
+                return view, guards
             if layout == "fortran":
                 par = np.full((c + 2, r + 2), sent, dtype=v.dtype)
                 view = par[1:c + 1, 1:r + 1].T
@@ -397,8 +409,8 @@ def build_pool(cs, ctx):
 
     # ---- ensembles (N, M)
     for j in range(cs.between("nens", 2, 4)):
-        lay = cs.choice(f"e{j}.lay", ["contig", "fortran", "strided",
-                                      "contig"])
+        lay = cs.choice(f"e{j}.lay", ["contig_exact", "fortran", "strided",
+                                      "contig", "fortran_exact"])
         e = np.exp(rs.normal(0, 1, (N, M)))
         if cs.flip(f"e{j}.ties", 40):
             e = np.round(e * 2) / 2
@@ -419,16 +431,19 @@ def build_pool(cs, ctx):
     for j in range(cs.between("nmat", 2, 3)):
         k = cs.between(f"m{j}.k", 2, 4)
         x = rs.normal(0, 1, (N, k))
-        lay = cs.choice(f"m{j}.lay", ["contig", "fortran", "strided"])
+        lay = cs.choice(f"m{j}.lay", ["contig_exact", "fortran", "strided",
+                                      "fortran_exact", "contig"])
         view, guards = pool.carve(x, lay, "m")
         pool.add("mat", view, guards, f"mat[{N}x{k},{lay}]", {lay, f"k{k}"})
     xy = rs.normal(0, 1, (N, 2))
-    view, guards = pool.carve(xy, cs.choice("xy.lay", ["contig", "fortran"]),
-                              "xy")
-    pool.add("xy", view, guards, "xy[N,2]")
+    xylay = cs.choice("xy.lay", ["contig_exact", "fortran_exact", "contig",
+                                 "fortran"])
+    view, guards = pool.carve(xy, xylay, "xy")
+    pool.add("xy", view, guards, f"xy[N,2,{xylay}]")
     xyt = rs.normal(0, 1, (2, N))
-    view, guards = pool.carve(xyt, "contig", "xyt")
-    pool.add("xy", view.T, guards, "xy[transposed view]")
+    view, guards = pool.carve(xyt, "contig_exact", "xyt")
+    pool.add("xy", view.T, guards, "xy[transposed view of a 2xN block]")
+    pool.add("xy", view, guards, "xy[2xN block]")
 
     # ---- pandas
     idx_daily = pd.date_range("2001-01-01", periods=N, freq="D")
@@ -935,6 +950,25 @@ def catalogue():
             except ValueError:
                 failed = True
                 break
+        # also on the same catchment object: a rejected delineation with
+        # inlets (too small a buffer, or an outlet outside the grid) in between
+        inlet = int(first[len(first) // 2]) if len(first) else \
+            o["others"][-1] % n
+        for cand in o["others"][:3]:
+            try:
+                c.delineate_area(cand % n if o["inside"] else -1,
+                                 [inlet], nval=nval)
+            except ValueError:
+                failed = True
+        c.delineate_area(o["outlet"] % n, nval=nval)
+        again = np.array(c.idxcells_area, copy=True)
+        if not np.array_equal(first, again):
+            raise Violation("consecutive_calls_differ",
+                            f"delineate_area(outlet={o['outlet'] % n}, nval="
+                            f"{nval}) on one catchment gave {first.tolist()} "
+                            f"and, after other delineations (some rejected) on "
+                            f"the same object, {again.tolist()}",
+                            "Catchment.delineate_area")
         c3 = hgrid.Catchment("tmp3", a.fd)
         c3.delineate_area(o["outlet"] % n, nval=nval)
         third = np.array(c3.idxcells_area, copy=True)
@@ -950,8 +984,9 @@ def catalogue():
         delineate_around_failure,
         lambda cs: {"outlet": cs.draw("outlet", 81),
                     "nval": cs.choice("nval", [4, 6, 10, 20]),
-                    "others": [cs.draw(f"o{i}", 81) for i in range(6)]},
-        weight=4)
+                    "others": [cs.draw(f"o{i}", 81) for i in range(6)],
+                    "inside": cs.flip("inside", 60)},
+        weight=5)
     def from_dict_then_use(a, o):
         """A catchment described by caller-held arrays (cell numbers from
         another tool), rebuilt with from_dict and then used."""
